@@ -1126,6 +1126,25 @@ impl MemoryStore {
         }
     }
 
+    /// Append a provider record to the list stored under `key` (the caller keeps the list sorted by distance),
+    /// fresh or already expired; `local` additionally registers the key as provided by the local node.
+    pub fn push_provider_verif(&mut self, key: Key, provider: PeerId, addresses: Vec<Multiaddr>, expired: bool, local: bool) {
+        let now = std::time::Instant::now();
+        let expires = if expired { now - Duration::from_secs(1) } else { now + self.config.provider_ttl };
+        if local {
+            self.local_providers.insert(
+                key.clone(),
+                (ContentProvider { peer: provider, addresses: vec![] }, Quorum::One),
+            );
+        }
+        self.provider_keys.entry(key.clone()).or_default().push(ProviderRecord {
+            key,
+            provider,
+            addresses,
+            expires,
+        });
+    }
+
     pub fn records_len_verif(&self) -> usize {
         self.records.len()
     }
